@@ -54,26 +54,35 @@ Definition fill_okb (a : sarr) (fill : Z) : bool :=
 (* comparison of one implementation result with the model's and with the original dense meaning:
    0 ok | 1 representation differs from the model's (meaning intact) | 2 shape/fill/element changed
    | 3 not in canonical form *)
-Definition compare_result (m : reprZ) (o : sarr) (sh : shape) (fill : Z) (flat : list Z) : Z :=
-  if negb (sarr_same_dense o sh flat && fill_okb o fill) then 2
+(* dense meaning against the row-major values of the original (when the case carries them: large
+   arrays are compared through the raw representation, which the model is proved to give the right
+   meaning, and through NumPy on the harness side) *)
+Definition meaning_okb (o : sarr) (sh : shape) (flat : option (list Z)) : bool :=
+  match flat with
+  | Some fl => sarr_same_dense o sh fl
+  | None => opt_eqb zl_eqb (sarr_shape o) (Some sh)
+  end.
+
+Definition compare_result (m : reprZ) (o : sarr) (sh : shape) (fill : Z) (flat : option (list Z)) : Z :=
+  if negb (meaning_okb o sh flat && fill_okb o fill) then 2
   else if negb (sarr_wfb o) then 3
   else if negb (sarr_eqb (sarr_of_repr m) o) then 1 else 0.
 
-Definition spec_only (o : sarr) (sh : shape) (fill : Z) (flat : list Z) : Z :=
-  if negb (sarr_same_dense o sh flat && fill_okb o fill) then 2
+Definition spec_only (o : sarr) (sh : shape) (fill : Z) (flat : option (list Z)) : Z :=
+  if negb (meaning_okb o sh flat && fill_okb o fill) then 2
   else if negb (sarr_wfb o) then 3 else 0.
 
 (* ------------------------------------------------------------------ conversion chains *)
 (* initial canonical COO; executed hops with a flag "through scipy.sparse" (then the hop also
    requires ndim = 2 and fill 0); the implementation's result after each hop (the run stops at the
    first exception); row-major dense values of the initial array *)
-Definition chain_case := (coo Z * list (fmtZ * bool) * list sarr * list Z)%type.
+Definition chain_case := (coo Z * list (fmtZ * bool) * list sarr * option (list Z))%type.
 
 (* verdict of hop number i (from 1): 10 * i + code, code =
    1 representation | 2 value | 3 canonical form | 4 exception on a valid hop |
    5 exception on a valid hop that the model reproduces (clause zero_dim_from_iter) |
    6 invalid hop accepted | 7 malformed case *)
-Fixpoint judge_hops (i : Z) (sh : shape) (fill : Z) (flat : list Z) (st : option reprZ)
+Fixpoint judge_hops (i : Z) (sh : shape) (fill : Z) (flat : option (list Z)) (st : option reprZ)
          (hops : list (fmtZ * bool)) (outs : list sarr) : Z :=
   match hops, outs with
   | [], [] => 0
@@ -126,6 +135,7 @@ Definition is_value (o : sarr) : bool :=
 (* 0 ok | 1 representation | 2 value | 3 canonical form | 4 exception on valid input |
    5 exception the model reproduces (clause zero_dim_from_iter) | 6 malformed input accepted *)
 Definition judge_model_vs (m : res reprZ) (valid : bool) (o : sarr) (sh : shape) (fill : Z) (flat : list Z) : Z :=
+  let flat := Some flat in
   if negb valid then (if is_exc o then 0 else 6)
   else match m with
        | Raise _ => if is_exc o then 5 else if is_value o then spec_only o sh fill flat else 4
